@@ -24,14 +24,14 @@ Init == kase = NoCase
 Honest ==
     /\ kase = NoCase     \* every case is one step from the initial state
     /\ \E id \in Ids, sax \in Axes :
-        LET pf == ProofOf(sax, id.r, id.c) IN
-        kase' = MkCase("honest", id, CellT(id.r, id.c), sax, pf, pf.pos, 1, "none")
+          LET pf == ProofOf(sax, id.r, id.c) IN
+          kase' = MkCase("honest", id, CellT(id.r, id.c), sax, pf, pf.pos, 1, "none")
 
 Recombine ==
     /\ kase = NoCase
     /\ \E id \in Ids, sax \in Axes, pf \in Proofs :
-    \E sh \in {CellT(r, c) : r \in Idx, c \in Idx} \cup {AltT(id.r, id.c)} :
-        kase' = MkCase("recombine", id, sh, sax, pf, pf.pos, 1, "none")
+          \E sh \in {CellT(r, c) : r \in Idx, c \in Idx} \cup {AltT(id.r, id.c)} :
+             kase' = MkCase("recombine", id, sh, sax, pf, pf.pos, 1, "none")
 
 Alter ==
     /\ kase = NoCase
